@@ -25,7 +25,11 @@ SUBS = [
     ('R15', r'(?s)#if defined\(__cpp_exceptions\)(?:(?!#endif).)*?#else(.*?)#endif[^\n]*', r'\1'),
     # allocation / release
     ('R12', r'static_cast<T\*>\(\s*::operator new\(\s*(\w+)\s*\*\s*sizeof\(T\)\s*\)\s*\)', r'SV_new(\1)'),
-    ('R12', r'static_cast<T\*>\(\s*(?:detail::)?alignedMalloc\(\s*(\w+)\s*\*\s*sizeof\(T\)\s*,\s*alignof\(T\)\s*\)\s*\)', r'SV_new_aligned(\1, ALIGNOF_T)'),
+    # the alignment argument is captured as written (alignof(T) is rewritten by the R4 rule below); the one-argument overload of
+    # alignedMalloc aligns to kCacheLineSize (dispenso/platform.h), probed from the real headers as KCACHELINE
+    ('R12', r'static_cast<T\*>\(\s*(?:detail::)?alignedMalloc\(\s*(\w+)\s*\*\s*sizeof\(T\)\s*,\s*((?:[^(),]|\([^()]*\))+?)\s*\)\s*\)', r'SV_new_aligned(\1, \2)', 'opt'),
+    ('R12', r'static_cast<T\*>\(\s*(?:detail::)?alignedMalloc\(\s*(\w+)\s*\*\s*sizeof\(T\)\s*\)\s*\)', r'SV_new_aligned(\1, KCACHELINE)', 'opt'),
+    ('R4', r'\bkCacheLineSize\b', 'KCACHELINE', 'opt'),
     ('R12', r'::operator delete\(\s*storage_\.heap_\.ptr\s*\);', 'SV_free(self->heap_ptr, 0);'),
     ('R12', r'(?:detail::)?alignedFree\(\s*storage_\.heap_\.ptr\s*\);', 'SV_free(self->heap_ptr, 1);'),
     ('R4', r'\bkOverAligned\b', '(ALIGNOF_T > MAX_ALIGN_T)'),
@@ -109,9 +113,12 @@ def build(ctx):
     S = 'specs/c38_smallvector.c'
     units = []
     BOUND = 4
-    for n, al in ([(1, 8), (4, 64)] if ctx.tier == 'quick' else [(1, 8), (2, 64), (4, 8), (4, 64), (64, 8)]):
-        d = {'KN': str(n), 'ALIGNOF_T': str(al)}
-        inst = 'N=%d,alignof(T)=%d' % (n, al)
+    kcl = ctx.probe(['dispenso/platform.h'], ['dispenso::kCacheLineSize'])[0]
+    # alignments: default (8), over-aligned up to the cache line (64), and beyond the cache line (4 * kCacheLineSize)
+    big = str(4 * int(kcl))
+    for n, al in ([(1, 8), (4, 64), (1, big)] if ctx.tier == 'quick' else [(1, 8), (2, 64), (4, 8), (4, 64), (64, 8), (1, big), (4, big)]):
+        d = {'KN': str(n), 'ALIGNOF_T': str(al), 'KCACHELINE': kcl}
+        inst = 'N=%d,alignof(T)=%s' % (n, al)
         common = dict(defines=d, inst=inst, timeout=600, object_bits=10, expect=[r'postcondition'])
         for fn in ('SV_isInline', 'SV_rawSize', 'SV_data', 'SV_capacity', 'SV_setSize'):
             units.append(Unit('SmallVector::' + fn[3:], 'cbmc', S, fn, **common))
